@@ -21,13 +21,19 @@
     checker accepts, the regex stage rejects the validated tree with UnboundedMatchable iff
     [placeholder_not_last] holds of the source grammar, and succeeds otherwise (C08_placeholder);
     the walk itself is characterised on the follow table (C08_tail_only_decides).
-    The class decided by the DFA ambiguity check is tied (T1) and judged on planted mistakes by
-    lib/vf/checks/c08.py (C08_ambiguity_* below are about the automaton). *)
+    The class decided by the DFA ambiguity check ("the same literal expected at one point with two
+    different descriptions") is proved at the level of the accepted language: the check of the
+    minimised main automaton fails iff the language of the raw automaton (by C02 the language of
+    the validated tree, over input ids) has two words with a common prefix that continue with the
+    same literal text under different descriptions, and it never fails for another reason
+    (C08_description_conflict); a predicate on the SOURCE grammar for this class is still missing
+    (judged on planted mistakes by lib/vf/checks/c08.py). *)
 From CG Require Import Base.Prelude Model.Ast Model.Check Spec.Choice Spec.Mistakes Proofs.CheckMistakes.
 From CG Require Import Proofs.CheckLemmas Proofs.CheckCycle Proofs.CheckFront Proofs.CheckCycleSpec.
 From CG Require Import Proofs.CheckSpacesSpec.
 From CG Require Import Model.Dfa Model.Ambiguity.
 From CG Require Proofs.AmbWalk.
+From CG Require Model.Subset Model.Minimize Proofs.AmbLang Proofs.AmbPipeline Proofs.TreeFacts.
 From CG Require Model.Regex Proofs.RegexNoPanic Proofs.TailOnlySpec Proofs.PhExpr Proofs.PhSpec Proofs.PhTree.
 
 Theorem C08_no_call_variant :
@@ -433,3 +439,31 @@ Example ex_C08_placeholder_inhabited :
   /\ present (fun _ => []) ex_ph_n2 Bash = [] /\ regex_verdict ex_ph_n2 = Some true.
 Proof. vm_compute. repeat split; reflexivity. Qed.
 Print Assumptions ex_C08_placeholder_inhabited.
+
+(** *** The description-conflict class (ambiguity check of the main automaton) *)
+
+(** [AmbLang.lang_conflict d]: there are input-id words [u ++ i :: v1] and [u ++ j :: v2] accepted
+    by [d] where [i], [j] are literals with the same text and different descriptions.  The check
+    of the minimised automaton fails exactly then, and only with [ConflictingDescriptions]
+    ([AmbiguousDFA] cannot occur: the unbounded item is ONE interned input and a state has at most
+    one transition per input). *)
+Theorem C08_description_conflict :
+  forall pick fuel submap e r pl d states m,
+    TreeFacts.alts_nonempty e = true ->
+    Regex.from_expr e [] = Ok (r, pl) ->
+    Subset.dfa_from_regex pick fuel submap r = Ok (d, states) ->
+    Minimize.minimize d = Ok m ->
+    ((exists ae, check_ambiguity_best_effort m = Err ae) <-> AmbLang.lang_conflict d) /\
+    (forall ae, check_ambiguity_best_effort m = Err ae ->
+                exists q t l r', ae = ConflictingDescriptions q t l r').
+Proof. exact AmbPipeline.main_amb_verdict. Qed.
+Check C08_description_conflict :
+  forall pick fuel submap e r pl d states m,
+    TreeFacts.alts_nonempty e = true ->
+    Regex.from_expr e [] = Ok (r, pl) ->
+    Subset.dfa_from_regex pick fuel submap r = Ok (d, states) ->
+    Minimize.minimize d = Ok m ->
+    ((exists ae, check_ambiguity_best_effort m = Err ae) <-> AmbLang.lang_conflict d) /\
+    (forall ae, check_ambiguity_best_effort m = Err ae ->
+                exists q t l r', ae = ConflictingDescriptions q t l r').
+Print Assumptions C08_description_conflict.
